@@ -1,5 +1,6 @@
 import DirectVerif.Driver.Common
 import DirectVerif.Model.MaskInterior
+import DirectVerif.Driver.C04Poisson
 /-!
 Line-protocol interpreter of `Model/MaskGeom.lean` (shared by C04 and C06).
 
@@ -267,6 +268,7 @@ def step (op : String) (gs : List (List Int)) : String :=
       let (a, b, _) := g.accepts
       okG [[b2i a, b2i b, b2i (g.effectiveMode m == m), modeIdx (g.effectiveMode m), b2i g.acceptsCropCorner]]
     | _, _ => "err BadOp"
-  | _, _ => "err BadOp"
+  -- `_poisson.pyx` kernel, IEEE helpers (Model/C04Poisson.lean)
+  | _, _ => DirectVerif.Driver.C04Poisson.step op gs
 
 end DirectVerif.Driver.C04
